@@ -170,9 +170,11 @@ def codec (ws : List String) : String :=
       | _ => "bad-op"
   | _ => "bad-op"
 
+/-- A Go panic inside block execution kills the node (no recover in executeTx): the harness ends the session
+there and no state is compared for that operation. -/
 def applyOp (s : St) (o : Op) : St × String :=
   let (r, s') := step s o
-  (s', showRes r ++ " | " ++ showState s')
+  if r = .panic then (s', "panic") else (s', showRes r ++ " | " ++ showState s')
 
 def c15Step (s : St) (line : String) : St × String :=
   let bad := (s, "bad-op")
